@@ -120,6 +120,7 @@ func main() {
 		var a, b int
 		fmt.Sscan(os.Args[2], &a)
 		fmt.Sscan(os.Args[3], &b)
+		ev.GuardProcess()
 		os.Exit(cold(a, b))
 	}
 
@@ -167,7 +168,11 @@ func main() {
 			r.Violation("data-race/on-first-use", fmt.Sprintf("pair %s as the first use of the library in a fresh process: race detector report:\n%s", name, raceLogTail(lp, 0)), c)
 		}
 
-		if err != nil || len(out) > 0 {
+		if strings.HasPrefix(string(out), "COLD-TOOL-ERROR") {
+			r.ToolError("cold start of pair %s: %s", name, out)
+		} else if strings.HasPrefix(string(out), "COLD-CALL-NEVER-RETURNS") {
+			r.Violation("call-never-returns/on-first-use", fmt.Sprintf("pair %s in a fresh process: %s", name, out), c)
+		} else if err != nil || len(out) > 0 {
 			r.Violation("concurrent/first-use-result-differs-from-running-alone", fmt.Sprintf("pair %s in a fresh process: %v %s", name, err, out), c)
 		}
 	})
